@@ -12,12 +12,12 @@ int run(const Args& A) {
     libInit();
     long ncases = A.cases > 0 ? A.cases : (A.thorough() ? 4000 : 600);
     for (long c = 0; c < ncases; c++) {
-        if (A.only_case >= 0 && c != A.only_case) continue;
+        if (!A.selected(c)) continue;
         Rng r(Rng::mix(A.seed, uint64_t(c)));
         bool rel = r.chance(1, 2);
         Dom D = randomDom(r, 1, rel ? 3 : 4, A.thorough() ? 4 : 3, rel ? 1300 : 300, rel);
         D.create();
-        emit("case %ld", c);
+        beginCase(c);
         emits(D.str());
         // three forests: operand a, operand b, result c; aliasing pattern chosen at random
         std::vector<reduction_rule> rules = {reduction_rule::FULLY_REDUCED, reduction_rule::QUASI_REDUCED};
@@ -53,6 +53,7 @@ int run(const Args& A) {
             emit("input B %s", tableStr(tb).c_str());
             emit("table A Fa %s", tableStr(tableOf(D, a)).c_str());
             emit("table B Fb %s", tableStr(tableOf(D, b)).c_str());
+            fflush(stdout);
             int rounds = r.chance(1, 2) ? 2 : 1;   // second round = warm compute table
             for (int round = 0; round < rounds; round++) {
                 const char* names[] = {"UNION", "INTERSECTION", "DIFFERENCE"};
@@ -66,6 +67,7 @@ int run(const Args& A) {
                         STATS.hit(std::string("op.") + names[o]);
                     } catch (error& e) {
                         emit("err R%d %s A B %s", o, names[o], errName(e));
+                        emit("note thrown-at %s:%u", e.getFile(), e.getLine());
                         STATS.hit(std::string("err.") + errName(e));
                     }
                 }
@@ -88,7 +90,7 @@ int run(const Args& A) {
                 emit("unchanged B");
             }
         }
-        emit("endcase");
+        endCase();
         std::set<forest*> seen;
         for (int i = 0; i < 3; i++) if (seen.insert(fs[i].F).second) forest::destroy(fs[i].F);
         D.destroy();
